@@ -267,7 +267,7 @@ func ppProtCase(w *bufio.Writer, r *u.Rng, dist map[string]int, caseNo int, long
 			}
 			// tamper BEFORE the genuine delivery, so that the opener's state is the same
 			nflip := 5
-			all := os.Getenv("VERIF_TIER") == "thorough" && caseNo%10 == 0
+			all := os.Getenv("VERIF_TIER") == "thorough" && caseNo%100 == 0
 			if all {
 				nflip = len(pkt) * 8
 			}
